@@ -35,7 +35,8 @@ EXPLANATION = ("Proved in Lean: refinesB is sound for the effect relations; ever
 THEOREMS = ["Cppcheck.ContainerSize.refinesB_sound", "Cppcheck.ContainerSize.cfg_actions_sound",
             "Cppcheck.ContainerSize.cfg_set_insert_counterexample", "Cppcheck.ContainerSize.cfg_nonempty_after_push_sound",
             "Cppcheck.ContainerSize.known_size_sound", "Cppcheck.ContainerSize.known_size_sound_table",
-            "Cppcheck.ContainerSize.known_size_unsound_set_insert_counterexample"]
+            "Cppcheck.ContainerSize.known_size_unsound_set_insert_counterexample", "Cppcheck.ContainerSize.ctorSize_sound_partial",
+            "Cppcheck.ContainerSize.ctorSize_sound_counterexamples", "Cppcheck.ContainerSize.ctorSize_sound_counterexample"]
 MODULES = ["Cppcheck.Props.C02"]
 
 ACTIONS = ["resize", "clear", "push", "pop", "find", "find-const", "insert", "erase", "append", "change-content", "change", "change-internal"]
@@ -421,13 +422,14 @@ class ProgGen:
         if kind == "array":
             self.emit("%s %s = {{1, 2, 3, 4}};" % (ty, name))
         elif kind == "string":
-            self.emit(rng.choice(['%s %s;', '%s %s = "abc";', '%s %s("ab");', '%s %s = "";']) % (ty, name))
+            self.emit(rng.choice(['%s %s;', '%s %s = "abc";', '%s %s("ab");', '%s %s = "";', "%s %s(3, 'x');", "%s %s{3, 'x'};", "%s %s{'a', 'b', 'c'};",
+                                  '%s %s("abcdef", 2);', "%s %s{72, 105};"]) % (ty, name))
         elif kind == "map":
             self.emit(rng.choice(["%s %s;", "%s %s = {{1, 2}, {3, 4}};", "%s %s = {{1, 2}, {1, 4}};"]) % (ty, name))
         elif kind == "set":
             self.emit(rng.choice(["%s %s;", "%s %s = {1, 2, 3};", "%s %s = {1, 1, 2};", "%s %s{a, b};"]) % (ty, name))
         else:
-            self.emit(rng.choice(["%s %s;", "%s %s = {1, 2, 3};", "%s %s(3);", "%s %s(2, 7);", "%s %s{5};"]) % (ty, name))
+            self.emit(rng.choice(["%s %s;", "%s %s = {1, 2, 3};", "%s %s(3);", "%s %s(2, 7);", "%s %s{5};", "%s %s{3, 7};", "%s %s(a & 3, 1);"]) % (ty, name))
         self.vars.append((name, kind))
         self.kinds.add(kind)
         return name, kind
@@ -694,6 +696,98 @@ def run_e2e(ctx, res, n):
               "" if discarded <= max(2, len(fns) // 40) else "%d of %d generated functions do not run clean" % (discarded, len(fns)))
 
 
+# ---- translator: the shape of the constructor-size functions the model `ctorSize` copies ------------------------------------
+def ctor_shapes(text):
+    """the decisive conditions of getContainerSizeFromConstructorArgs / getInitListSize / getContainerSizeFromConstructor in lib/valueflow.cpp:
+    per function the ordered list of `if (...)` conditions, assignments to `initList` and `return` expressions (comments and layout
+    ignored); None for a function that is not found"""
+    out = {}
+    for name in ("getContainerSizeFromConstructorArgs", "getInitListSize", "getContainerSizeFromConstructor"):
+        m = re.search(r"static std::vector<ValueFlow::Value> %s\((.*?)\)\s*\{\n(.*?)\n\}\n" % name, text, re.S)
+        if not m:
+            out[name] = None
+            continue
+        b = re.sub(r"\s+", " ", re.sub(r"//[^\n]*", "", m.group(2))).strip()
+        items, i = [], 0
+        while i < len(b):
+            if b.startswith("if (", i) and (i == 0 or not (b[i - 1].isalnum() or b[i - 1] == "_")):
+                j, d = i + 3, 0
+                while True:
+                    d += b[j] == "("
+                    d -= b[j] == ")"
+                    j += 1
+                    if d == 0:
+                        break
+                items.append("if " + b[i + 3:j])
+                i = j
+            elif b.startswith("return ", i) or b.startswith("initList = ", i):
+                j = b.index(";", i)
+                items.append(b[i:j])
+                i = j
+            else:
+                i += 1
+        out[name] = items
+    return out
+
+CTOR_SHAPES = {'getContainerSizeFromConstructor': ['if (args.empty())',
+                                     'return {makeContainerSizeValue(MathLib::bigint{0}, known)}',
+                                     'if (args.size() == 1 && Token::simpleMatch(args[0], "{"))',
+                                     'return getInitListSize(args[0], valueType, settings, known)',
+                                     'return getContainerSizeFromConstructorArgs(args, valueType->container, known)'],
+ 'getContainerSizeFromConstructorArgs': ['if (astIsIntegral(args[0], false))',
+                                         'if (args.size() == 1 || (args.size() > 1 && !astIsIntegral(args[1], false)))',
+                                         'return {makeContainerSizeValue(args[0], known)}',
+                                         'if (astIsContainer(args[0]) && args.size() == 1)',
+                                         'return getContainerValues(args[0])',
+                                         'if (isIteratorPair(args))',
+                                         'if (!result.empty())',
+                                         'return result',
+                                         'if (astIsPointer(args[0]) && args[0]->exprId() != 0)',
+                                         'if (args[0]->exprId() == args[1]->exprId())',
+                                         'return {makeContainerSizeValue(MathLib::bigint{0}, known)}',
+                                         'if (Token::simpleMatch(args[1], "+"))',
+                                         'if (sizetok->exprId() == eid)',
+                                         'if (vartok->exprId() == eid && sizetok->hasKnownIntValue())',
+                                         'return {makeContainerSizeValue(sizetok, known)}',
+                                         'if (container->stdStringLike)',
+                                         'if (astIsPointer(args[0]))',
+                                         'if (args.size() == 1 && args[0]->tokType() == Token::Type::eString)',
+                                         'return {makeContainerSizeValue(Token::getStrLength(args[0]), known)}',
+                                         'if (args.size() == 1 && args[0]->variable() && args[0]->variable()->isArray() && '
+                                         'args[0]->variable()->isConst() && args[0]->variable()->dimensions().size() == 1 && '
+                                         'args[0]->variable()->dimensions()[0].known)',
+                                         'return {makeContainerSizeValue(args[0]->variable()->dimensions()[0].num, known)}',
+                                         'if (args.size() == 2 && astIsIntegral(args[1], false))',
+                                         'return {makeContainerSizeValue(args[1], known)}',
+                                         'if (astIsContainer(args[0]))',
+                                         'if (args.size() == 1)',
+                                         'return getContainerValues(args[0])',
+                                         'if (args.size() == 3)',
+                                         'return {makeContainerSizeValue(args[2], known)}',
+                                         'return {}'],
+ 'getInitListSize': ['if (args.empty())',
+                     'return {makeContainerSizeValue(MathLib::bigint{0}, known)}',
+                     'initList = tok->str() == "{"',
+                     'if (initList && args.size() < 4)',
+                     'initList = !isIteratorPair(args)',
+                     'if (valueType->container->stdStringLike)',
+                     'initList = astIsGenericChar(args[0]) && !astIsPointer(args[0])',
+                     'if (containerTypeToken)',
+                     'if (vt.pointer > 0 && astIsPointer(args[0]))',
+                     'initList = true',
+                     'if (vt.type == ValueType::ITERATOR && astIsIterator(args[0]))',
+                     'initList = true',
+                     'if (vt.isIntegral() && astIsIntegral(args[0], false))',
+                     'initList = true',
+                     'if (args.size() == 1 && valueFlowIsSameContainerType(vt, tok->astOperand2(), valueType->container->view, settings))',
+                     'initList = false',
+                     'if (args.size() == 2 && (!args[0]->valueType() || !args[1]->valueType()))',
+                     'initList = false',
+                     'if (!initList)',
+                     'return getContainerSizeFromConstructorArgs(args, valueType->container, known)',
+                     'return {makeContainerSizeValue(args.size(), known)}']}
+
+
 # ================================================================================================================
 # constructor forms: model (ctorSize) vs --dump, reference (ctorRef) vs g++, facts vs native sizes
 # ================================================================================================================
@@ -940,6 +1034,14 @@ def run(ctx, res):
     res.extra["phase_seconds"] = phases
     rows, meta, problems = translate(ctx)
     res.oblig("translate:std.cfg-containers", not problems, "translation", "; ".join(problems))
+    got = ctor_shapes(open(os.path.join(core.REPO, "lib", "valueflow.cpp"), encoding="utf-8").read())
+    diff = []
+    for fn, want in CTOR_SHAPES.items():
+        if got.get(fn) != want:
+            g = got.get(fn) or []
+            k = next((i for i in range(max(len(g), len(want))) if i >= len(g) or i >= len(want) or g[i] != want[i]), 0)
+            diff.append("%s: item %d is `%s`, the model copies `%s`" % (fn, k, g[k] if k < len(g) else "<missing>", want[k] if k < len(want) else "<nothing>"))
+    res.oblig("translate:constructor-size-functions-shape", not diff, "translation", "; ".join(diff))
     res.extra["table_rows"] = len(rows)
     mark("translator")
     core.prove(ctx, res, MODULES, THEOREMS)
@@ -991,6 +1093,24 @@ def run(ctx, res):
 
 
 def replay(ctx, res, rp):
+    if rp.get("kind") == "ctor":
+        d = os.path.join(ctx.tmp, "r")
+        os.makedirs(d, exist_ok=True)
+        prelude = PRELUDE.replace("#include <array>\n", "#include <array>\n#include <unordered_set>\n#include <unordered_map>\n")
+        path = os.path.join(d, "r.cpp")
+        open(path, "w").write(prelude + rp["text"])
+        if not run_cppcheck_dump(ctx, path):
+            print("replay: no dump")
+            return 2
+        toks = parse_dump_values(path + ".dump")
+        start = prelude.count("\n") + 1
+        still = False
+        for off, l in enumerate(rp["text"].split("\n")):
+            if "P(%d, %s.size()" % (rp["probe"], rp["var"]) in l:
+                still = any(list(f) == rp["fact"] for f in size_facts(toks, start + off, rp["var"]))
+        print("replay: %s: fact %s %s reported; the program run has size %d" % (rp["form"], rp["fact"], "still" if still else "no longer", rp["size"]))
+        print("replay: %s" % ("still fails" if still else "no longer fails"))
+        return 1 if still else 0
     if rp.get("kind") == "e2e":
         d = os.path.join(ctx.tmp, "r")
         os.makedirs(d, exist_ok=True)
